@@ -9,6 +9,7 @@ import Pandora.Model.C08Mach
 import Pandora.Model.C08Scan
 import Pandora.Model.C08Fault
 import Pandora.Model.C08Pick
+import Pandora.Model.C08Size
 
 namespace Pandora.Bridge.ProvLoops
 open Pandora.Model.C08 Pandora.Gen.ProvLoops
@@ -401,5 +402,18 @@ theorem optTypes_eq :
   refine ⟨?_, rfl⟩
   intro k
   cases k <;> rfl
+
+/-! ## the token limit of the line scanners, pass by pass (round 6) -/
+
+/-- grpc/json: the scanner of EVERY pass is given the configured buffer (`maxammosize`, else bufio.MaxScanTokenSize) — the
+regenerated limit (scanner set-up executed over three iterations of the pass loop of `start`) is the one `Model.C08.lineMax`
+says, whatever the pass counter.  A set-up hoisted out of the loop with a plain `bufio.NewScanner` after the seek gives
+`Model.C08.lineMaxFirstOnly` instead and breaks this. -/
+theorem grpcScanMax_eq (mas passNum : Nat) : lineMax .grpcJson mas passNum = some (grpcScanMax mas passNum) := by
+  by_cases h : passNum ≤ 1 <;> simp [lineMax, grpcScanMax, tokMax, defaultTok, h]
+
+/-- uri: the scanner newURIDecoder builds and the one `Scan` builds after every seek have no limit below math.MaxInt -/
+theorem uriScanMax_eq (mas passNum : Nat) : lineMax .uri mas passNum = some (uriScanMax passNum) := by
+  by_cases h : passNum ≤ 1 <;> simp [lineMax, uriScanMax, maxInt, h]
 
 end Pandora.Bridge.ProvLoops
